@@ -346,6 +346,41 @@ func c19ClientScenario(ncallers int, dotu bool, D int) Scenario {
 	}}
 }
 
+// (g) users the process has never looked up: attaches as fresh uids and a stat of a
+// file owned by yet another one, on two connections at once (the user table is
+// process-wide; each uid is new only once per process - here once per execution)
+func c19UfsFreshUsers(D int) Scenario {
+	var root, base string
+	name := "ufs fresh users: attaches as never-seen uids on two connections, stat of a foreign file"
+	body := func() {
+		vs.EnableHB()
+		os.RemoveAll(root)
+		os.MkdirAll(root, 0o755)
+		os.WriteFile(filepath.Join(root, "f"), []byte("x"), 0o644)
+		os.Chown(filepath.Join(root, "f"), 1234, 2345)
+		h := newUfsH(root, 8216, true)
+		c1, c2 := h.Connect(), h.Connect()
+		c1.Version(8216, "9P2000.u")
+		c2.Version(8216, "9P2000.u")
+		vs.Window(true)
+		c1.Send(true, tattach(1, 0, wire.NOFID, "", 4001, true))
+		c2.Send(true, tattach(1, 0, wire.NOFID, "", 4002, true))
+		vs.Idle()
+		c1.Send(true, twalk(2, 0, 1, "f"))
+		c2.Send(true, tattach(2, 1, wire.NOFID, "", 4003, true))
+		vs.Idle()
+		c1.Send(true, &wire.Msg{Type: wire.Tstat, Tag: 3, Fid: 1})
+		c2.Send(true, tattach(3, 2, wire.NOFID, "", 4004, true))
+		vs.Idle()
+		vs.Window(false)
+	}
+	return Scenario{Name: name, Run: func(rc *RunCtx) *Result {
+		base, root = scratchDir("c19")
+		defer os.RemoveAll(base)
+		return runVs(rc, &VsSpec{Name: name, Body: body, Check: c19Check, P: D, Delay: true})
+	}}
+}
+
 func c19Scenarios(tier string) []Scenario {
 	D := 1
 	if tier == "thorough" {
@@ -361,6 +396,7 @@ func c19Scenarios(tier string) []Scenario {
 	}
 	out = append(out, c19UfsScenario(3, true, D), c19ClientScenario(3, false, D))
 	out = append(out, c19UfsSymlinkedRoot(false, D), c19UfsSymlinkedRoot(true, D))
+	out = append(out, c19UfsFreshUsers(D))
 	out = append(out, c19UfsSpelledRoot("/", true, D), c19UfsSpelledRoot("//./", false, D))
 	out = append(out, c19UfsPipelineScenario(64, 0, false, D), c19UfsPipelineScenario(64, 33, true, D), c19UfsPipelineScenario(96, 0, true, D))
 	sort.Slice(out, func(i, j int) bool { return out[i].Name < out[j].Name })
